@@ -209,21 +209,25 @@ theorem place_ok (g : Grid) (col row : Int) (r0 : Bool) (cell : Cell)
   exact ⟨_, rfl, by simp⟩
 
 theorem r0Pass_ok (rowR : Int) (r0 : Bool) (cells : List Cell) :
-    ∀ (g : Grid) (i : Nat), (1 ≤ rowR ∧ rowR ≤ (g.length : Int)) →
+    ∀ (g : Grid) (i : Nat) (prev : Int), (r0 = true → 0 ≤ prev) → (1 ≤ rowR ∧ rowR ≤ (g.length : Int)) →
       (r0 = true → ∀ c ∈ cells, ∀ col row, c.r.coords = some (col, row) → 1 ≤ col ∧ 1 ≤ row ∧ row ≤ (g.length : Int)) →
-      ∃ g', r0Pass g rowR r0 cells i = .ok g' ∧ g'.length = g.length := by
+      ∃ g', r0Pass g rowR r0 cells i prev = .ok g' ∧ g'.length = g.length := by
   induction cells with
-  | nil => intro g i _ _; exact ⟨g, rfl, rfl⟩
+  | nil => intro g i prev _ _ _; exact ⟨g, rfl, rfl⟩
   | cons c cs ih =>
-    intro g i hr hw
+    intro g i prev hp hr hw
     have hcs : ∀ g' : Grid, g'.length = g.length → r0 = true →
         ∀ c ∈ cs, ∀ col row, c.r.coords = some (col, row) → 1 ≤ col ∧ 1 ≤ row ∧ row ≤ (g'.length : Int) := by
       intro g' hl hr0 c hc col row h; rw [hl]; exact hw hr0 c (List.mem_cons_of_mem _ hc) col row h
     unfold r0Pass
     split
-    · obtain ⟨g1, h1, l1⟩ := place_ok g ((i : Int) + 1) rowR r0 c hr (by omega)
+    · have hcol : 1 ≤ (if r0 then prev + 1 else (i : Int) + 1) := by
+        split
+        · rename_i h; have := hp h; omega
+        · omega
+      obtain ⟨g1, h1, l1⟩ := place_ok g (if r0 then prev + 1 else (i : Int) + 1) rowR r0 c hr hcol
       rw [h1]; simp only [Outcome.bind]
-      obtain ⟨g2, h2, l2⟩ := ih g1 (i + 1) (by rw [l1]; exact hr) (hcs g1 l1)
+      obtain ⟨g2, h2, l2⟩ := ih g1 (i + 1) (if r0 then prev + 1 else (i : Int) + 1) (fun _ => by omega) (by rw [l1]; exact hr) (hcs g1 l1)
       exact ⟨g2, h2, by rw [l2, l1]⟩
     · split
       · rename_i col row hco
@@ -232,10 +236,11 @@ theorem r0Pass_ok (rowR : Int) (r0 : Bool) (cells : List Cell) :
           have hb := hw hr0 c List.mem_cons_self col row hco
           obtain ⟨g1, h1, l1⟩ := place_ok g col row r0 c ⟨hb.2.1, hb.2.2⟩ hb.1
           rw [h1]; simp only [Outcome.bind]
-          obtain ⟨g2, h2, l2⟩ := ih g1 (i + 1) (by rw [l1]; exact hr) (hcs g1 l1)
+          obtain ⟨g2, h2, l2⟩ := ih g1 (i + 1) col (fun _ => by omega) (by rw [l1]; exact hr) (hcs g1 l1)
           exact ⟨g2, h2, by rw [l2, l1]⟩
-        · exact ih g (i + 1) hr (hcs g rfl)
-      · exact ih g (i + 1) hr (hcs g rfl)
+        · rename_i hr0
+          exact ih g (i + 1) col (fun h => absurd h hr0) hr (hcs g rfl)
+      · exact ih g (i + 1) prev hp hr (hcs g rfl)
 
 /-! ### the loops of checkSheet -/
 
@@ -339,7 +344,7 @@ theorem r0Rows_ok (r0 : List Row) : ∀ (g : Grid),
     rw [idx?_some g (r.r - 1) (by omega) (by omega)]
     simp only
     obtain ⟨g2, h2, l2⟩ := r0Pass_ok r.r true r.cells
-      (g.set (r.r - 1).toNat { (g.getD (r.r - 1).toNat emptyRow) with r := r.r }) 0
+      (g.set (r.r - 1).toNat { (g.getD (r.r - 1).toNat emptyRow) with r := r.r }) 0 0 (fun _ => Int.le_refl _)
       (by simp; omega) (by intro _; simpa using hr.2.2)
     rw [h2]; simp only [Outcome.bind]
     obtain ⟨g3, h3, l3⟩ := ih g2 (by
@@ -360,7 +365,7 @@ theorem fillRows_ok : ∀ (k : Nat) (g : Grid) (i : Nat), 1 ≤ i → i + k ≤ 
     simp only
     obtain ⟨g2, h2, l2⟩ := r0Pass_ok (i : Int) false
       ({ (g.getD ((i : Int) - 1).toNat emptyRow) with r := (i : Int) } : Row).cells
-      (g.set ((i : Int) - 1).toNat { (g.getD ((i : Int) - 1).toNat emptyRow) with r := (i : Int) }) 0
+      (g.set ((i : Int) - 1).toNat { (g.getD ((i : Int) - 1).toNat emptyRow) with r := (i : Int) }) 0 0 (fun _ => Int.le_refl _)
       (by simp; omega) (by intro h; cases h)
     rw [h2]; simp only [Outcome.bind]
     obtain ⟨g3, h3, l3⟩ := ih g2 (i + 1) (by omega) (by rw [l2]; simp; omega)
@@ -670,28 +675,28 @@ theorem place_P {P : Cell → Prop} (he : P emptyCell) {g g' : Grid} {col row : 
         | exact hpad
 
 theorem r0Pass_P {P : Cell → Prop} (he : P emptyCell) (rowR : Int) (r0 : Bool) (cells : List Cell) :
-    ∀ (g g' : Grid) (i : Nat), r0Pass g rowR r0 cells i = .ok g' → CellsP P g → (∀ c ∈ cells, P c) → CellsP P g' := by
+    ∀ (g g' : Grid) (i : Nat) (prev : Int), r0Pass g rowR r0 cells i prev = .ok g' → CellsP P g → (∀ c ∈ cells, P c) → CellsP P g' := by
   induction cells with
-  | nil => intro g g' i h hg _; simp [r0Pass] at h; subst h; exact hg
+  | nil => intro g g' i prev h hg _; simp [r0Pass] at h; subst h; exact hg
   | cons c cs ih =>
-    intro g g' i h hg hc
+    intro g g' i prev h hg hc
     have hcs : ∀ x ∈ cs, P x := fun x hx => hc x (List.mem_cons_of_mem _ hx)
     have hc0 : P c := hc c List.mem_cons_self
     unfold r0Pass at h
     split at h
-    · cases hpl : place g ((i : Int) + 1) rowR r0 c with
-      | ok g1 => rw [hpl] at h; simp only [Outcome.bind] at h; exact ih g1 g' _ h (place_P he hpl hg hc0) hcs
+    · cases hpl : place g (if r0 then prev + 1 else (i : Int) + 1) rowR r0 c with
+      | ok g1 => rw [hpl] at h; simp only [Outcome.bind] at h; exact ih g1 g' _ _ h (place_P he hpl hg hc0) hcs
       | err => rw [hpl] at h; simp [Outcome.bind] at h
       | panic => rw [hpl] at h; simp [Outcome.bind] at h
     · split at h
       · rename_i col row _
         split at h
         · cases hpl : place g col row r0 c with
-          | ok g1 => rw [hpl] at h; simp only [Outcome.bind] at h; exact ih g1 g' _ h (place_P he hpl hg hc0) hcs
+          | ok g1 => rw [hpl] at h; simp only [Outcome.bind] at h; exact ih g1 g' _ _ h (place_P he hpl hg hc0) hcs
           | err => rw [hpl] at h; simp [Outcome.bind] at h
           | panic => rw [hpl] at h; simp [Outcome.bind] at h
-        · exact ih g g' _ h hg hcs
-      · exact ih g g' _ h hg hcs
+        · exact ih g g' _ _ h hg hcs
+      · exact ih g g' _ _ h hg hcs
 
 theorem placeRows_P {P : Cell → Prop} (kept : List Row) : ∀ (g g' : Grid) (last last' : Int),
     placeRows g last kept = .ok (g', last') → CellsP P g → (∀ r ∈ kept, ∀ c ∈ r.cells, P c) → CellsP P g' := by
@@ -721,10 +726,10 @@ theorem r0Rows_P {P : Cell → Prop} (he : P emptyCell) (r0 : List Row) : ∀ (g
       simp only at h
       have hg1 : CellsP P (g.set i { (g.getD i emptyRow) with r := r.r }) :=
         gridset_P hg i (getD_cells_P hg i)
-      cases hp : r0Pass (g.set i { (g.getD i emptyRow) with r := r.r }) r.r true r.cells 0 with
+      cases hp : r0Pass (g.set i { (g.getD i emptyRow) with r := r.r }) r.r true r.cells 0 0 with
       | ok g2 =>
         rw [hp] at h; simp only [Outcome.bind] at h
-        exact ih g2 g' h (r0Pass_P he _ _ _ _ _ _ hp hg1 (hk r List.mem_cons_self)) hrest
+        exact ih g2 g' h (r0Pass_P he _ _ _ _ _ _ _ hp hg1 (hk r List.mem_cons_self)) hrest
       | err => rw [hp] at h; simp [Outcome.bind] at h
       | panic => rw [hp] at h; simp [Outcome.bind] at h
 
@@ -743,10 +748,10 @@ theorem fillRows_P {P : Cell → Prop} (he : P emptyCell) : ∀ (k : Nat) (g g' 
       have hrow : ∀ c ∈ ({ (g.getD j emptyRow) with r := (i : Int) } : Row).cells, P c := getD_cells_P hg j
       have hg1 : CellsP P (g.set j { (g.getD j emptyRow) with r := (i : Int) }) := gridset_P hg j hrow
       cases hp : r0Pass (g.set j { (g.getD j emptyRow) with r := (i : Int) }) (i : Int) false
-          ({ (g.getD j emptyRow) with r := (i : Int) } : Row).cells 0 with
+          ({ (g.getD j emptyRow) with r := (i : Int) } : Row).cells 0 0 with
       | ok g2 =>
         rw [hp] at h; simp only [Outcome.bind] at h
-        exact ih g2 g' _ h (r0Pass_P he _ _ _ _ _ _ hp hg1 hrow)
+        exact ih g2 g' _ h (r0Pass_P he _ _ _ _ _ _ _ hp hg1 hrow)
       | err => rw [hp] at h; simp [Outcome.bind] at h
       | panic => rw [hp] at h; simp [Outcome.bind] at h
 
